@@ -1,5 +1,86 @@
-(* C02 — placeholder until Proofs/WsProofs.v lands *)
-From GV Require Import Prelude.Base Model.Ws Model.WsCheck.
-Theorem C02_init_reopen : fst (step init Reopen) = init.
-Proof. vm_compute. reflexivity. Qed.
-Print Assumptions C02_init_reopen.
+(* C02 — Every file the library writes is a structurally valid geoh5 file.
+   Only statements, each closed by [exact] and followed by Print Assumptions.
+   [Rep t f pend] (Model/WsSpec.v): file f is exactly the encoding of tree t -- every entity stored once under its own
+   identifier with its attributes, every parent-to-child entry a hard link to the child's node, unique identifiers, Root
+   link to the root node -- up to the flat nodes of the identifiers in [pend], unreachable orphans.  [Valid f] = Rep with
+   no orphan. *)
+From GV Require Import Prelude.Base Model.Ws Model.WsSpec Proofs.WsProofs.
+
+Theorem C02_init : Rep (wmem init) (wfile init) (wpend init).
+Proof. exact rep_init. Qed.
+Print Assumptions C02_init.
+
+(* after every operation of every history without identifier re-use over a stale node (whatever the outcomes, including
+   removals that raised half-way): the file is valid up to orphans, which are the pending dead identifiers plus
+   object/data identifiers (never groups) forgotten by a close + re-open *)
+Theorem C02_valid_upto_orphans : forall ops, fresh_run ops init = true ->
+  let w := run ops init in
+  exists orph, (forall k, In k orph -> fst k <> KG) /\ Rep (wmem w) (wfile w) (wpend w ++ orph).
+Proof. exact rep_run_orphans. Qed.
+Print Assumptions C02_valid_upto_orphans.
+
+(* "valid up to the pending orphans" exactly: one step, and histories *)
+Theorem C02_step_partial : forall w o,
+  Rep (wmem w) (wfile w) (wpend w) -> fresh_op w o = true -> clean_op w o = true ->
+  Rep (wmem (fst (step w o))) (wfile (fst (step w o))) (wpend (fst (step w o))).
+Proof. exact rep_step. Qed.
+Print Assumptions C02_step_partial.
+
+(* PARTIAL (side conditions: no stale identifier re-use; every close + re-open happens when only groups are pending) *)
+Theorem C02_valid_upto_partial : forall ops, fresh_run ops init = true -> clean_run ops init = true ->
+  let w := run ops init in Rep (wmem w) (wfile w) (wpend w).
+Proof. exact rep_run. Qed.
+Print Assumptions C02_valid_upto_partial.
+
+Definition C02_step_full : Prop := rep_step_full.
+Theorem C02_step_refuted : ~ C02_step_full.
+Proof. exact rep_step_full_refuted. Qed.
+Print Assumptions C02_step_refuted.
+
+(* REFUTED without the second side condition: close sweeps groups only, the re-opened workspace forgets the pending
+   object whose flat node stays (witness [ops_forgot]) *)
+Definition C02_valid_upto_full : Prop := rep_run_full.
+Theorem C02_valid_upto_refuted : ~ C02_valid_upto_full.
+Proof. exact rep_run_full_refuted. Qed.
+Print Assumptions C02_valid_upto_refuted.
+
+(* the closed file is valid when only groups are pending ... *)
+Theorem C02_close_valid_partial : forall ops, fresh_run ops init = true -> clean_run ops init = true ->
+  let w := run ops init in
+  (forall k, In k (wpend w) -> fst k = KG) ->
+  Valid (wfile (close_file w)).
+Proof. exact close_valid. Qed.
+Print Assumptions C02_close_valid_partial.
+
+(* ... or, without any condition on re-opens, when no object/data node lingers outside the tree *)
+Theorem C02_close_valid_nolinger : forall ops, fresh_run ops init = true ->
+  let w := run ops init in
+  (forall k n, fget k (flat (wfile w)) = Some n -> fst k <> KG -> In k (keys_of (wmem w))) ->
+  Valid (wfile (close_file w)).
+Proof. exact close_valid_nolinger. Qed.
+Print Assumptions C02_close_valid_nolinger.
+
+Definition C02_close_valid_full : Prop := close_valid_full.
+Theorem C02_close_valid_refuted : ~ C02_close_valid_full.
+Proof. exact close_valid_full_refuted. Qed.
+Print Assumptions C02_close_valid_refuted.
+
+(* REFUTED: the full property (every closed file is valid) is false of the faithful model: an object removed through its
+   parent and never listed leaves an orphan node that close does not sweep (witness [ops_orphan], replayed on the
+   implementation: known finding) *)
+Definition C02_valid_full : Prop := C02_full.
+Theorem C02_valid_refuted : ~ C02_valid_full.
+Proof. exact C02_full_refuted. Qed.
+Print Assumptions C02_valid_refuted.
+
+(* non-vacuity: the side conditions are met by a 14-operation history with a move, a removal through the parent + sweep,
+   a removal through the workspace that raises half-way and a re-open, and its final state satisfies the invariant;
+   the hypothesis of the close theorem is met with a pending dead group *)
+Example C02_nonvacuous :
+  fresh_run ops_demo init = true /\ clean_run ops_demo init = true /\
+  (let w := run ops_demo init in Rep (wmem w) (wfile w) (wpend w)) /\
+  fresh_run ops_dead_group init = true /\ clean_run ops_dead_group init = true /\
+  wpend (run ops_dead_group init) = [(KG, 1%N)].
+Proof.
+  split; [apply ops_demo_ok|]. split; [apply ops_demo_ok|]. split; [exact ops_demo_rep|]. exact ops_dead_group_ok.
+Qed.
